@@ -764,6 +764,9 @@ func c09Programs(r *RNG, count int) []c09Prog {
 	bin("mul-u32", "uint32", "uint32", "*")
 	bin("div-i8", "int8", "int8", "/")
 	bin("mod-u7", "uint7", "uint7", "%")
+	// exhaustive adder widths that are not 2^k or 2^k+1 (GMW: Kogge-Stone stage count)
+	bin("add-u6", "uint6", "uint6", "+")
+	bin("add-u7", "uint7", "uint7", "+")
 	bin("add-i16", "int16", "int16", "+")
 	bin("sub-u7", "uint7", "uint7", "-")
 	bin("lt-i6", "int6", "bool", "<")
